@@ -162,4 +162,10 @@ example : applyOps [.remove 0, .addAfter 2 5] [1, 2, 3, 4] = some [2, 3, 4, 5] :
 the current source (`Gen/Trans.lean`, regenerated on every run) -/
 theorem c11_trans_pyMod (x y : Int) : Gen.Trans.pyMod x y = Myers.pyMod x y := TransTie.pyMod_eq x y
 
+/-- the `V` arrays of the Myers search are only indexed through `pyMod _ Z`, which lies in `[0, Z)` for every diagonal:
+the reads and writes of the model never fall back to a default, and the Go code cannot index them out of range -/
+theorem c11_myers_vindex_in_range (x : Int) (Z : Nat) (hZ : 0 < Z) :
+    0 ≤ Myers.pyMod x Z ∧ (Myers.pyMod x Z).toNat < Z :=
+  ⟨(Myers.pyMod_range x Z (by omega)).1, Myers.pyMod_index x Z hZ⟩
+
 end Patch
